@@ -288,6 +288,14 @@ func c11(c *core.Ctx) {
 		targetedBuffersNotShared(c, int(c.N(40, 2000)))
 		c.DistinctStr(fmt.Sprintf("buffers-not-shared-%d", i))
 	})
+	c.Section("short-write", 4, func(i int64, _ *gen.Rand) {
+		targetedShortWrite(c, int(i))
+		c.DistinctStr(fmt.Sprintf("short-write-%d", i))
+	})
+	c.Section("response-vs-timeout", 4, func(i int64, _ *gen.Rand) {
+		targetedResponseVsTimeout(c, int(c.N(800, 20000)), c11Oracles)
+		c.DistinctStr(fmt.Sprintf("response-vs-timeout-%d", i))
+	})
 	c.Section("overlapping-retransmissions", 4, func(i int64, _ *gen.Rand) {
 		targetedOverlappingRetransmissions(c, int(i))
 		c.DistinctStr(fmt.Sprintf("overlapping-retransmissions-%d", i))
